@@ -128,7 +128,8 @@ def gen_common(ch, tier, max_n=10):
     return {"k": k, "n": n, "happy": 1, "nservers": nservers,
             "knobs": {"mseg": mseg},
             "net": {"threads": ch.pick("config", "threads", ["sync", "sync", "async"]), "lat_profile": ch.pick("config", "lat", ["uniform", "uniform", "heavy", "fifo"]),
-                    "jitter": ch.pick("config", "jitter", [0.0005, 0.05, 0.5]), "base_lat": 0.001}}
+                    "jitter": ch.pick("config", "jitter", [0.0005, 0.05, 0.5]), "base_lat": 0.001,
+                    "batch": ch.pick("config", "batch", [0, 0, 0, 0.001, 0.02, 0.3])}}
 
 
 def sizes_for(cfg):
@@ -1069,6 +1070,7 @@ def exec_versions(case):
                     if len(shs) >= k:
                         out.append(v)
                 return out
+            got_v = None
             if st == "hung":
                 bad(focus, "read-hung", "download_best_version never completed")
                 continue
@@ -1106,6 +1108,23 @@ def exec_versions(case):
                 if focus == "C11" and rec_up and not case.get("muts"):
                     bad("C11", "read-failed", "read failed with %s although a published version is recoverable from reachable servers" % err_name(res),
                         sig="C11.read-failed." + err_site(res))
+            if focus == "C11" and snap is not None and snap["mode"] == MODE_READ and (snap["outstanding"] or snap["extra"]):
+                # "among the versions it located": a read-mode survey that stops while servers remain unasked or unanswered
+                # has, by its own rule, digested the answers of 2k servers (k + epsilon, epsilon = k) -- every share those
+                # answers showed is then in its servermap.  An answer that was received but whose shares never reached the
+                # map was not "located", and must not count towards stopping.
+                digested = 0
+                for a_ in mon.answers[an0:]:
+                    if a_["caller"] != rd.sim_name or a_["n"] > snap["n"] or a_["method"] != "slot_readv":
+                        continue
+                    if not a_["ok"] or all((a_["callee"], sh_) in set((nm_, s2_) for (nm_, s2_, _q, _r) in snap["shares"]) for sh_ in a_["heads"]):
+                        digested += 1
+                # (queries to unreachable servers fail at once and never produce an answer event: all of them may have been counted)
+                digested += len([1 for sidx in rdown if sidx < len(g.servers)])
+                if digested < 2 * k:
+                    bad("C11", "finished-before-digesting-answers", "the read's survey declared itself finished (with %d queries outstanding and %d servers never asked) "
+                        "when the shares of only %d answers had been entered into its servermap; its own rule is k+epsilon = %d (returned %s)" % (
+                            snap["outstanding"], snap["extra"], digested, 2 * k, "seq %d" % got_v[1] if st == "ok" and got_v is not None else st))
             if focus == "C11" and snap is not None:
                 # when its map update finished, the servermap held a newer version than the best one it could recover
                 # -> the updater must by then have had an answer from every reachable server
